@@ -380,9 +380,24 @@ type funcResult struct {
 	Assumptions []string
 	Loops       int
 	SSAInstrs   int
+	globals     []*Cell
 }
 
 func (e *Engine) TranslateFunc(key string) (res *funcResult) {
+	fc := e.contracts[key]
+	if fc != nil && fc.Concurrent {
+		// two passes: the first discovers every heap / memory cell the fragment touches, so that
+		// interference points of the second havoc all of them
+		first := e.translateFunc(key, nil)
+		if first.Err != "" {
+			return first
+		}
+		return e.translateFunc(key, first.globals)
+	}
+	return e.translateFunc(key, nil)
+}
+
+func (e *Engine) translateFunc(key string, preCells []*Cell) (res *funcResult) {
 	fc := e.contracts[key]
 	res = &funcResult{Key: key, Contract: fc}
 	fn := e.funcs[key]
@@ -405,7 +420,7 @@ func (e *Engine) TranslateFunc(key string) (res *funcResult) {
 	}()
 	th := Theory{bv: fc.Theory == "bv"}
 	t := &fnTrans{eng: e, th: th, fc: fc, fn: fn, globals: map[string]*Cell{}, cellTyp: map[string]types.Type{},
-		oldSnap: map[string]*Cell{}, callSeq: map[string]int{}, assumptions: map[string]bool{}, usedSpecFuncs: map[string]bool{}, usedAsserts: map[string]bool{}, constGlobals: map[string]int64{}, outside: map[string]int{}}
+		oldSnap: map[string]*Cell{}, callSeq: map[string]int{}, assumptions: map[string]bool{}, usedSpecFuncs: map[string]bool{}, usedAsserts: map[string]bool{}, constGlobals: map[string]int64{}, outside: map[string]int{}, preGlobals: preCells}
 	t.proc = &Proc{Name: key, Props: fc.Props}
 	pre := t.proc.NewBlock("pre")
 	t.proc.Entry = pre
@@ -605,6 +620,9 @@ func (e *Engine) TranslateFunc(key string) (res *funcResult) {
 		return
 	}
 	res.Obls = obls
+	for _, n := range t.gorder {
+		res.globals = append(res.globals, t.globals[n])
+	}
 	for a := range t.assumptions {
 		res.Assumptions = append(res.Assumptions, a)
 	}
